@@ -1881,34 +1881,36 @@ void Validator::ValidatorImpl::validateAndCleanCiNode(const XmlNodePtr &node, co
 
 void Validator::ValidatorImpl::validateAndCleanMathCiCnNodes(XmlNodePtr &node, const ComponentPtr &component, const NameList &variableNames)
 {
-    if (node->isMathmlElement("cn")) {
-        validateAndCleanCnNode(node, component);
-    } else if (node->isMathmlElement("ci")) {
-        validateAndCleanCiNode(node, component, variableNames);
-    }
-    // Check children for ci/cn.
-    XmlNodePtr childNode = node->firstChild();
-    if (childNode != nullptr) {
-        validateAndCleanMathCiCnNodes(childNode, component, variableNames);
-    }
-    // Check siblings for ci/cn.
-    node = node->next();
-    if (node != nullptr) {
-        validateAndCleanMathCiCnNodes(node, component, variableNames);
+    // Siblings are walked in a loop (a math element may have tens of thousands of children); only the depth recurses.
+    while (node != nullptr) {
+        if (node->isMathmlElement("cn")) {
+            validateAndCleanCnNode(node, component);
+        } else if (node->isMathmlElement("ci")) {
+            validateAndCleanCiNode(node, component, variableNames);
+        }
+        // Check children for ci/cn.
+        XmlNodePtr childNode = node->firstChild();
+        if (childNode != nullptr) {
+            validateAndCleanMathCiCnNodes(childNode, component, variableNames);
+        }
+        // Check siblings for ci/cn.
+        node = node->next();
     }
 }
 
 void Validator::ValidatorImpl::validateMathMLElement(const XmlNodePtr &node, const ComponentPtr &component)
 {
-    if (node != nullptr) {
-        if (!node->isComment() && !node->isText() && !isSupportedMathMLElement(node)) {
+    // The node and its following siblings are walked in a loop (a math element may have tens of thousands of
+    // children); only the depth recurses.
+    for (XmlNodePtr current = node; current != nullptr; current = current->next()) {
+        if (!current->isComment() && !current->isText() && !isSupportedMathMLElement(current)) {
             auto issue = Issue::IssueImpl::create();
-            issue->mPimpl->setDescription("Math has a '" + node->name() + "' element that is not a supported MathML element.");
+            issue->mPimpl->setDescription("Math has a '" + current->name() + "' element that is not a supported MathML element.");
             issue->mPimpl->mItem->mPimpl->setMath(component);
             issue->mPimpl->setReferenceRule(Issue::ReferenceRule::MATH_CHILD);
             addIssue(issue);
         }
-        validateMathMLElements(node, component);
+        validateMathMLElement(current->firstChild(), component);
     }
 }
 
